@@ -129,7 +129,11 @@ def build(case):
             continue
         n = shape[ec["axis"]]
         v = table_values(ec["kind"], n, ec["nonlinear"], k)
-        if ec["kind"] == "quantity":
+        if ec["kind"] == "quantity" and (case["wseed"] + k) % 4 == 3:
+            # a Quantity subclass with state of its own: longitudes wrapped at 180 deg (negative entries)
+            from astropy.coordinates import Longitude
+            cube.extra_coords.add(f"q{k}", ec["axis"], Longitude((v - 40) * u.deg, wrap_angle=180 * u.deg), physical_types=f"custom:q{k}")
+        elif ec["kind"] == "quantity":
             cube.extra_coords.add(f"q{k}", ec["axis"], v * u.m, physical_types=f"custom:q{k}")
         elif ec["kind"] == "time":
             # (a Time table in any of the usual scales: the instants, not the clock readings, must be kept)
@@ -158,7 +162,7 @@ def ec_tables(cube):
         elif isinstance(t, SkyCoord):
             arrs = [t.spherical.lon.deg * 10, t.spherical.lat.deg * 10]
         else:
-            arrs = [np.asarray(x.to_value(u.m)) for x in (t if isinstance(t, (tuple, list)) else [t])]
+            arrs = [np.asarray(x.to_value(u.m if x.unit.is_equivalent(u.m) else u.deg)) for x in (t if isinstance(t, (tuple, list)) else [t])]
         if not np.isscalar(axes) and len(axes) == 1:
             axes = axes[0]
         out.append((int(axes) if np.isscalar(axes) else tuple(int(a) for a in axes), list(coord.names), arrs))
